@@ -19,6 +19,9 @@ Decoder.vos Decoder.vok Decoder.required_vos: Decoder.v Base.vos Fields.vos SrcF
 Encoder.vo Encoder.glob Encoder.v.beautified Encoder.required_vo: Encoder.v Base.vo Fields.vo SrcFacts.vo Msg.vo
 Encoder.vio: Encoder.v Base.vio Fields.vio SrcFacts.vio Msg.vio
 Encoder.vos Encoder.vok Encoder.required_vos: Encoder.v Base.vos Fields.vos SrcFacts.vos Msg.vos
+DecoderSafety.vo DecoderSafety.glob DecoderSafety.v.beautified DecoderSafety.required_vo: DecoderSafety.v Base.vo Fields.vo SrcFacts.vo Msg.vo Decoder.vo
+DecoderSafety.vio: DecoderSafety.v Base.vio Fields.vio SrcFacts.vio Msg.vio Decoder.vio
+DecoderSafety.vos DecoderSafety.vok DecoderSafety.required_vos: DecoderSafety.v Base.vos Fields.vos SrcFacts.vos Msg.vos Decoder.vos
 Cache.vo Cache.glob Cache.v.beautified Cache.required_vo: Cache.v Base.vo Fields.vo SrcFacts.vo Msg.vo SrcDecisions.vo
 Cache.vio: Cache.v Base.vio Fields.vio SrcFacts.vio Msg.vio SrcDecisions.vio
 Cache.vos Cache.vok Cache.required_vos: Cache.v Base.vos Fields.vos SrcFacts.vos Msg.vos SrcDecisions.vos
@@ -37,9 +40,9 @@ Properties_C06.vos Properties_C06.vok Properties_C06.required_vos: Properties_C0
 Properties_C18.vo Properties_C18.glob Properties_C18.v.beautified Properties_C18.required_vo: Properties_C18.v Base.vo Fields.vo SrcFacts.vo Msg.vo SrcDecisions.vo Cache.vo CacheSpec.vo CacheProofs.vo
 Properties_C18.vio: Properties_C18.v Base.vio Fields.vio SrcFacts.vio Msg.vio SrcDecisions.vio Cache.vio CacheSpec.vio CacheProofs.vio
 Properties_C18.vos Properties_C18.vok Properties_C18.required_vos: Properties_C18.v Base.vos Fields.vos SrcFacts.vos Msg.vos SrcDecisions.vos Cache.vos CacheSpec.vos CacheProofs.vos
-Properties_C03.vo Properties_C03.glob Properties_C03.v.beautified Properties_C03.required_vo: Properties_C03.v Base.vo Fields.vo SrcFacts.vo Msg.vo Decoder.vo Encoder.vo
-Properties_C03.vio: Properties_C03.v Base.vio Fields.vio SrcFacts.vio Msg.vio Decoder.vio Encoder.vio
-Properties_C03.vos Properties_C03.vok Properties_C03.required_vos: Properties_C03.v Base.vos Fields.vos SrcFacts.vos Msg.vos Decoder.vos Encoder.vos
+Properties_C03.vo Properties_C03.glob Properties_C03.v.beautified Properties_C03.required_vo: Properties_C03.v Base.vo Fields.vo SrcFacts.vo Msg.vo Decoder.vo DecoderSafety.vo
+Properties_C03.vio: Properties_C03.v Base.vio Fields.vio SrcFacts.vio Msg.vio Decoder.vio DecoderSafety.vio
+Properties_C03.vos Properties_C03.vok Properties_C03.required_vos: Properties_C03.v Base.vos Fields.vos SrcFacts.vos Msg.vos Decoder.vos DecoderSafety.vos
 Properties_C01.vo Properties_C01.glob Properties_C01.v.beautified Properties_C01.required_vo: Properties_C01.v Base.vo Fields.vo SrcFacts.vo Msg.vo Decoder.vo Encoder.vo
 Properties_C01.vio: Properties_C01.v Base.vio Fields.vio SrcFacts.vio Msg.vio Decoder.vio Encoder.vio
 Properties_C01.vos Properties_C01.vok Properties_C01.required_vos: Properties_C01.v Base.vos Fields.vos SrcFacts.vos Msg.vos Decoder.vos Encoder.vos
